@@ -329,6 +329,19 @@ func (x *Exec) dispatch(st *State, fr *Frame, c *callCtx) {
 				bind[p.Name()] = TV{c.args[i], p.Type()}
 			}
 		}
+		if len(fn.Params) == 0 {
+			// a function without a body (standard library, other modules): arguments are arg0, arg1, ...
+			// (a method's receiver is self)
+			sig := fn.Signature
+			k := 0
+			if sig.Recv() != nil && len(c.args) > 0 {
+				bind["self"] = TV{c.args[0], sig.Recv().Type()}
+				k = 1
+			}
+			for i := 0; i < sig.Params().Len() && k+i < len(c.args); i++ {
+				bind[fmt.Sprintf("arg%d", i)] = TV{c.args[k+i], sig.Params().At(i).Type()}
+			}
+		}
 		x.siteAsserts(st, fr, "call", fn.Name(), bind)
 		if st.dead {
 			return
